@@ -964,7 +964,9 @@ def install(eng, check_tags=None):
     def exit_checks(eng_, c, st, result, exc):
         if getattr(c, "conn_entry", False):
             selfref = find_conn(st)
-            check_inv_step(eng_, st, selfref, "exit" if exc is None else "exit-exc")
+            # (a helper of a connect phase may return in the middle of the phase's atomic segment: the clauses it leaves to its
+            # caller are named in its contract and are not part of what callers may assume either)
+            check_inv_step(eng_, st, selfref, "exit" if exc is None else "exit-exc", skip=getattr(c, "exit_relaxed", ()))
     eng.hooks["exit_checks"] = exit_checks
 
 
@@ -1044,10 +1046,12 @@ def _with_self(eng, st, selfref):
     return {"self": selfref}
 
 
-def check_inv_step(eng, st, selfref, where):
+def check_inv_step(eng, st, selfref, where, skip=()):
     """Obligations of the segment that ends here: Inv(now) and Step(segment start, now)."""
     tags = getattr(eng, "conn_check_tags", None)
     for name, txt, ptags in INV:
+        if name in skip:
+            continue
         mine = [t for t in ptags if tags is None or t in tags]
         g = eval_clause(eng, st, _parse_expr(txt), {"self": selfref})
         oblige(eng, st, g, f"{where}/Inv:{name}", kind="property" if mine else "auxiliary", tags=mine or None)
@@ -1469,6 +1473,66 @@ def install_async(eng):
             return (s, VObj(z3.Const(fresh_name("addrs"), ObjS), "AddrList"))
         return ok(st, lib_awaitable("hr.async_resolve_host", [okk, raise_of(core_.APIConnectionError)]))
     eng.builtins[id(hr.async_resolve_host)] = b_resolve
+
+    # ---- TCP connect (aiohappyeyeballs) and the socket -----------------------------------------------------------------
+    import aiohappyeyeballs
+    import dataclasses as _dc
+    addrlist_f = z3.Function("addrlist_items", ObjS, ObjSeqS)
+    prev_its = eng.hooks.get("iter_to_seq")
+
+    def iter_to_seq2(eng_, st, it):
+        if isinstance(it, VObj) and it.cls == "AddrList":
+            return VSeq(addrlist_f(it.e), parse_ty("obj[AddrInfo]"))
+        return prev_its(eng_, st, it) if prev_its is not None else None
+    eng.hooks["iter_to_seq"] = iter_to_seq2
+    for _a in ("family", "type", "proto", "sockaddr"):
+        eng.obj_attrs[("AddrInfo", _a)] = (lambda a_: lambda e, s, v: VObj(z3.Function("addrinfo_" + a_, ObjS, ObjS)(v.e), "Any"))(_a)
+    eng.builtins[id(_dc.astuple)] = lambda e, s, a, k: ok(s, VObj(z3.Function("astuple", ObjS, ObjS)(box(e, s, a[0])), "Any"))
+
+    def b_start_connection(eng_, st, args, kwargs):
+        """A-LIB(aiohappyeyeballs): start_connection returns a connected socket or raises OSError; it honours cancellation."""
+        eng_.assumptions_used.add("A-LIB(aiohappyeyeballs): start_connection returns a connected socket or raises OSError (and honours cancellation); "
+                                  "pop_addr_infos_interleave removes at least one entry from a non-empty list; socket option calls may raise OSError")
+
+        def okk(eng2, s):
+            sk = eng2.new_obj(s, "sock", "Socket")
+            rset(eng2, s, "Socket.closed", sk, z3.BoolVal(False))
+            s.events = s.events + [("new_socket", sk)]
+            return (s, VObj(sk, "Socket"))
+        return ok(st, lib_awaitable("aiohappyeyeballs.start_connection", [okk, raise_of(OSError)]))
+    eng.builtins[id(aiohappyeyeballs.start_connection)] = b_start_connection
+
+    def b_pop_addr_infos(eng_, st, args, kwargs):
+        """A-LIB(aiohappyeyeballs): pop_addr_infos_interleave removes at least one entry from a non-empty list, in place."""
+        o = st.heap[args[0].oid]
+        if o.kind != "slist":
+            raise Unsupported("pop_addr_infos_interleave on a list that is not symbolic")
+        old_e = o.f["e"]
+        new_e = z3.Const(fresh_name("addr_infos"), old_e.sort())
+        st.fact(z3.And(z3.Length(new_e) >= 0, z3.Implies(z3.Length(old_e) > 0, z3.Length(new_e) < z3.Length(old_e)),
+                       z3.Implies(z3.Length(old_e) == 0, z3.Length(new_e) == 0)))
+        o.f["e"] = new_e
+        return ok(st, VNone)
+    eng.builtins[id(aiohappyeyeballs.pop_addr_infos_interleave)] = b_pop_addr_infos
+
+    def sock_op(may_raise):
+        def impl(eng_, st, recv, args, kwargs):
+            out = [(st, VObj(z3.Const(fresh_name("sockres"), ObjS), "Any"))]
+            for cls in may_raise:
+                s2 = st.clone()
+                s2.note(f"socket!{cls.__name__}")
+                out.append((s2, Raised(eng_.make_exc(s2, cls, []))))
+            return out
+        return impl
+    eng.obj_methods[("Socket", "setblocking")] = sock_op([])
+    # setsockopt: OSError from the OS; AttributeError is how the code itself probes for TCP_QUICKACK on platforms without it
+    eng.obj_methods[("Socket", "setsockopt")] = sock_op([OSError])
+
+    def sock_getpeername(eng_, st, recv, args, kwargs):
+        s2 = st.clone()
+        s2.note("socket!OSError")
+        return [(st, VTuple([fresh(eng_, st, "str", "peer_host"), fresh(eng_, st, "int", "peer_port")])), (s2, Raised(eng_.make_exc(s2, OSError, [])))]
+    eng.obj_methods[("Socket", "getpeername")] = sock_getpeername
 
     # ---- context managers ---------------------------------------------------------------------------------------
     import async_interrupt
